@@ -35,6 +35,7 @@ var (
 	ErrConnectionDraining   = errors.New("nats: connection draining")
 	ErrBadSubscription      = errors.New("nats: invalid subscription")
 	ErrBadSubject           = errors.New("nats: invalid subject")
+	ErrBadQueueName         = errors.New("nats: invalid queue name")
 	ErrSlowConsumer         = errors.New("nats: slow consumer, messages dropped")
 	ErrNoServers            = errors.New("nats: no servers available for connection")
 	ErrAuthorization        = errors.New("nats: authorization violation")
@@ -205,6 +206,7 @@ type Conn struct {
 // Subscription is a simulated subscription.
 type Subscription struct {
 	Subject string
+	Queue   string // queue group: of the members of a group that match a message exactly one receives it
 
 	conn       *Conn
 	idx        int
@@ -549,6 +551,20 @@ func (c *Conn) Flush() error { return nil }
 
 // Subscribe registers an asynchronous subscription.
 func (c *Conn) Subscribe(subj string, cb MsgHandler) (*Subscription, error) {
+	return c.subscribe(subj, "", cb)
+}
+
+// QueueSubscribe registers an asynchronous subscription that is a member of a queue group: the server hands each
+// message to one member of the group (this bus picks it by the route sequence number: deterministic, and spread over
+// the members).  An empty queue name gives a plain subscription, as in nats.go.
+func (c *Conn) QueueSubscribe(subj, queue string, cb MsgHandler) (*Subscription, error) {
+	if strings.ContainsAny(queue, " \t\r\n") {
+		return nil, ErrBadQueueName
+	}
+	return c.subscribe(subj, queue, cb)
+}
+
+func (c *Conn) subscribe(subj, queue string, cb MsgHandler) (*Subscription, error) {
 	if !validSubject(subj) {
 		return nil, ErrBadSubject
 	}
@@ -561,7 +577,7 @@ func (c *Conn) Subscribe(subj string, cb MsgHandler) (*Subscription, error) {
 		w.mu.Unlock()
 		return nil, ErrConnectionClosed
 	}
-	s := &Subscription{Subject: subj, conn: c, idx: c.nextSub, cb: cb,
+	s := &Subscription{Subject: subj, Queue: queue, conn: c, idx: c.nextSub, cb: cb,
 		ch: make(chan *Msg), done: make(chan struct{})}
 	c.nextSub++
 	c.subs = append(c.subs, s)
@@ -1014,6 +1030,28 @@ func (w *World) routeLocked(c *Conn) {
 					matched = append(matched, s)
 				}
 			}
+		}
+		// queue groups: one member per (queue, subject pattern) group receives the message
+		groups := map[[2]string][]*Subscription{}
+		for _, s := range matched {
+			if s.Queue != "" {
+				k := [2]string{s.Queue, s.Subject}
+				groups[k] = append(groups[k], s)
+			}
+		}
+		if len(groups) > 0 {
+			kept := matched[:0:0]
+			for _, s := range matched {
+				if s.Queue == "" {
+					kept = append(kept, s)
+					continue
+				}
+				g := groups[[2]string{s.Queue, s.Subject}]
+				if g[int(w.seq%uint64(len(g)))] == s {
+					kept = append(kept, s)
+				}
+			}
+			matched = kept
 		}
 		for _, s := range matched {
 			s.conn.arrival++
